@@ -70,6 +70,9 @@ func (fs *FS) newDir(name string, perm hackpadfs.FileMode) *file {
 func (fs *FS) MkdirAll(path string, perm hackpadfs.FileMode) error {
 	missingDirs, err := fs.findMissingDirs(path)
 	if err != nil {
+		if _, ok := err.(*hackpadfs.PathError); !ok {
+			err = fs.wrapperErr("mkdirall", path, err)
+		}
 		return err
 	}
 	for i := len(missingDirs) - 1; i >= 0; i-- { // missingDirs are in reverse order
